@@ -675,6 +675,9 @@ pub fn small_domain_leaves() -> Vec<Expr> {
             out.push(Expr::Between(neg, Box::new(c(1)), Box::new(lo.clone()), Box::new(hi.clone())));
         }
         out.push(Expr::Between(neg, Box::new(c(3)), Box::new(i(1)), Box::new(f(2.5))));
+        // a bound that is arithmetic over a possibly NULL column
+        out.push(Expr::Between(neg, Box::new(c(1)), Box::new(Expr::Arith(ArithOp::Add, Box::new(c(2)), Box::new(i(1)))), Box::new(i(1))));
+        out.push(Expr::Between(neg, Box::new(c(1)), Box::new(i(2)), Box::new(Expr::Arith(ArithOp::Sub, Box::new(c(2)), Box::new(i(1))))));
         out.push(Expr::Between(neg, Box::new(n()), Box::new(i(1)), Box::new(i(2))));
         for p in ["a%", "%", "_b_", "b%d", "%d", "", "b_d"] { out.push(Expr::Like(neg, Box::new(c(4)), Box::new(s(p)))); }
         out.push(Expr::Like(neg, Box::new(c(4)), Box::new(n())));
